@@ -276,6 +276,14 @@ func genGHQueries(t *rapid.T, n int) []GHQuery {
 	var qs []GHQuery
 	for i := 0; i < n; i++ {
 		q := GHQuery{}
+		if rapid.IntRange(0, 4).Draw(t, "lowstart") == 0 {
+			// a start near genesis (or none at all): the answer runs into the cap on long chains, whatever the stop
+			q.Loc = []int{rapid.SampledFrom([]int{0, 1, 2, 5, 40, -1}).Draw(t, "low")}
+			q.StopKind = rapid.SampledFrom([]int{0, 1, 1, 1, 4, 2}).Draw(t, "lsk")
+			q.StopArg = rapid.IntRange(0, 6000).Draw(t, "lsa")
+			qs = append(qs, q)
+			continue
+		}
 		ln := rapid.IntRange(0, 8).Draw(t, "ln")
 		for j := 0; j < ln; j++ {
 			if rapid.IntRange(0, 7).Draw(t, "lu") == 0 {
